@@ -17,7 +17,7 @@ def run(rep, tier):
         "instances down to the smallest grids the hierarchy produces (nr = 5, ntheta = 4); larger grids with fill-in: real-geometry run",
     ]
     tabs = sc.tables(rep, tier, "c04", "ac")
-    sc.conformance(rep, tier, tabs, "direct", 200, "direct", threads=(1, 3, 16) if tier == "thorough" else (1, 3))
+    sc.conformance(rep, tier, tabs, "direct", 200, "direct", threads=(1, 3, 16) if tier == "thorough" else (1, 3), scales=(1.0, 1e-9, 1e-13, 1e7))
     try:
         import realgeom
         realgeom.run(rep, tier, "direct")
